@@ -495,6 +495,11 @@ func edit(r *rng.R, body []*node) (out []*node, kind string, ok bool) {
 	if len(all) == 0 {
 		return out, "", false
 	}
+	if r.Intn(5) == 0 { // the text of a Go expression
+		if o, k, ok := editExpression(r, body); ok {
+			return o, k, true
+		}
+	}
 	pick := func(pred func(*node) bool) (slot, bool) {
 		var c []slot
 		for _, s := range all {
